@@ -8,6 +8,20 @@ from sa.util import AnalysisError
 class Unsupported(AnalysisError): pass
 def evaluate(e, env):
     if isinstance(e, ast.Constant): return e.value
+    if isinstance(e, ast.Attribute):
+        key = ast.unparse(e)
+        if key in env: return env[key]
+        raise Unsupported("attribute %s" % key)
+    if isinstance(e, (ast.ListComp, ast.GeneratorExp)):
+        out = []
+        def gen(i, env2):
+            if i == len(e.generators): out.append(evaluate(e.elt, env2)); return
+            g = e.generators[i]
+            if not isinstance(g.target, ast.Name): raise Unsupported("comprehension target")
+            for v in evaluate(g.iter, env2):
+                env3 = dict(env2); env3[g.target.id] = v
+                if all(evaluate(c, env3) for c in g.ifs): gen(i + 1, env3)
+        gen(0, env); return out
     if isinstance(e, ast.Name):
         if e.id in env: return env[e.id]
         raise Unsupported("name %s " % e.id)
